@@ -915,7 +915,10 @@ func (g *gen) failing(s *txstate, foreign []string) *stmt {
 		add("fail-nested-begin", func() string { return "BEGIN TRANSACTION" })
 		for _, f := range foreign {
 			f := f
+			// tables other sessions created and this one must not see: three times as likely as the other kinds
 			add("fail-invisible-table", func() string { return "DELETE FROM " + f })
+			add("fail-invisible-table", func() string { return "INSERT INTO " + f + " (k1) VALUES (1)" })
+			add("fail-invisible-table", func() string { return "UPDATE " + f + " SET f1 = NULL" })
 		}
 		if t != nil {
 			d := t.def
